@@ -205,21 +205,43 @@ func r062(c *Ctx) {
 	c.ob(rule, "SetRolloutSplit/rejects-without-rollout-targets", srs.Pos(), okErr, true, "ErrorRolloutTargetNotSet must be returned on the s.rollout == nil branch")
 	// (e) 'service not found' before any mutator, in every command entry
 	notFound := c.global(c.server, "ErrorServiceNotFound")
+	sfn, get := c.method("Router", "serviceForName"), c.method("ServiceMap", "Get")
 	for _, name := range []string{"SetRolloutTargets", "SetRolloutSplit", "StopRollout", "RemoveService", "PauseService", "StopService", "ResumeService"} {
 		fn := c.method("Router", name)
 		n := 0
 		for _, f := range withAnon(fn) {
+			var lookups []*ssa.Call
+			for _, cs := range append(callsTo(f, sfn), callsTo(f, get)...) {
+				if call, ok := cs.instr.(*ssa.Call); ok {
+					lookups = append(lookups, call)
+				}
+			}
 			for _, ret := range normalReturns(f) {
-				if !isLoadOfGlobal(lastRet(ret), notFound) {
+				missing := false
+				for _, l := range lookups {
+					if isNil, _ := nilKnowledge(ret, sameAs(l)); isNil {
+						missing = true
+					}
+				}
+				if !missing {
 					continue
 				}
 				n++
-				// which service value is nil here
-				knownNil := false
-				for _, ce := range dominatingConds(ret.Block()) {
-					if cm, ok := ce.asCmp(); ok && (isNilConst(cm.x) || isNilConst(cm.y)) {
-						knownNil = true
+				// the value returned is ErrorServiceNotFound (directly, or merged with nil by an inlined helper and known non-nil here)
+				v := lastRet(ret)
+				okVal := isLoadOfGlobal(v, notFound)
+				if !okVal {
+					has := false
+					for _, src := range phiSources(v) {
+						if isLoadOfGlobal(src, notFound) {
+							has = true
+						} else if !isNilConst(src) {
+							has = false
+							break
+						}
 					}
+					_, nn := nilKnowledge(ret, sameAs(v))
+					okVal = has && nn
 				}
 				// no mutator call can execute before this return
 				mutBefore := false
@@ -237,7 +259,7 @@ func r062(c *Ctx) {
 						}
 					}
 				}
-				c.ob(rule, "Router."+name+"/unknown-service-rejected-before-any-mutation", ret.Pos(), knownNil && !mutBefore, true, "ErrorServiceNotFound must be returned on the nil branch of the lookup, before any state-changing call")
+				c.ob(rule, "Router."+name+"/unknown-service-rejected-before-any-mutation", ret.Pos(), okVal && !mutBefore, true, "when the lookup finds no service the command must return ErrorServiceNotFound before any state-changing call")
 			}
 		}
 		c.ob(rule, "Router."+name+"/rejects-unknown-service", fn.Pos(), n >= 1, false, "")
